@@ -101,6 +101,14 @@ class Chooser:
     def label(self, text):
         self.labels.append(text)
 
+    def annotate(self, text):
+        """human-readable trace of what the drawn values meant (kept with the
+        samples in the evidence; never used for replay)"""
+        if not hasattr(self, "notes"):
+            self.notes = []
+        if len(self.notes) < 40:
+            self.notes.append(str(text)[:300])
+
     def mark_nontrivial(self, flag=True):
         if flag:
             self.nontrivial = True
